@@ -594,6 +594,28 @@ func c08Wiring(p *Prog, r *Report) {
 		return
 	}
 	r.Fn(FName(fn))
+	// each forwarder has its own rewriter: the exported constructors of the header rewriter return a freshly
+	// allocated object (its exported fields TrustForwardHeader / Hostname are configuration: a shared instance
+	// makes one user's setting rewrite every other forwarder's headers)
+	if hr := p.Named("forward", "HeaderRewriter"); hr != nil {
+		nC := 0
+		for _, cf := range p.PkgFuncs("forward") {
+			if cf.Parent() != nil || cf.Signature.Recv() != nil || cf.Signature.Results().Len() != 1 || derefNamed(cf.Signature.Results().At(0).Type()) == nil || derefNamed(cf.Signature.Results().At(0).Type()).Obj() != hr.Obj() {
+				continue
+			}
+			nC++
+			r.Fn(FName(cf))
+			fresh := true
+			for _, ret := range Returns(cf) {
+				al, ok := stripConv(ReturnOperand(ret, 0)).(*ssa.Alloc)
+				if !ok || al.Parent() != cf {
+					fresh = false
+				}
+			}
+			r.Check(fresh, "C08.R6", "forward."+cf.Name()+": returns a rewriter of its own", p.FuncPos(cf), "the result is allocated in the call", "the constructor hands out an object that is not allocated by this call (a cached / package-level instance): changing TrustForwardHeader or Hostname on it changes the headers every other forwarder sends")
+		}
+		r.Floor("C08.R6", nC, 1, "constructors of the header rewriter")
+	}
 	hooks := map[string]*ssa.Function{}
 	isRP := false
 	for _, b := range fn.Blocks {
@@ -785,6 +807,7 @@ func hookRunsAfterHopRemoval(p *Prog, hook string) (after bool, ok bool) {
 func mutantsC08() []Mutant {
 	fw, rw, hd := "forward/fwd.go", "forward/rewrite.go", "forward/headers.go"
 	return []Mutant{
+		{Name: "shared-header-rewriter", File: "forward/rewrite.go", Old: "\treturn &HeaderRewriter{TrustForwardHeader: true, Hostname: h}\n", New: "\tsharedRewriter.Hostname = h\n\treturn sharedRewriter\n", More: []Edit{{"forward/rewrite.go", "// NewHeaderRewriter creates", "var sharedRewriter = &HeaderRewriter{TrustForwardHeader: true}\n\n// NewHeaderRewriter creates"}}, Expect: "C08.R6"},
 		{Name: "drop-rawpath", File: fw, Old: "\toutReq.URL.RawPath = u.RawPath\n", New: "", Expect: "C08.R1"},
 		{Name: "proto-unconditional", File: rw, Old: "\txfProto := req.Header.Get(XForwardedProto)\n\tif xfProto == \"\" {", New: "\txfProto := req.Header.Get(XForwardedProto)\n\tif xfProto == \"\" || true {", Expect: "C08.R4"},
 		{Name: "xheaders-missing-port", File: hd, Old: "\tXForwardedPort,\n\tXForwardedServer,\n\tXRealIP,\n}", New: "\tXForwardedServer,\n\tXRealIP,\n}", Expect: "C08.R5"},
